@@ -444,3 +444,171 @@ class AtZero:
         v = self.of(args[0])
         return v if v in ('Z', 'O') else ('K' if v == 'K' else 'T')
     return 'T'
+
+
+# ------------------------------------------------------------------ LIN
+LIN_ORDER = {'Z': 0, 'C': 1, 'L': 2, 'A': 3, 'N': 4}
+LINEAR_EXT = {
+    'concatenate', 'stack', 'pad', 'reshape', 'asarray', 'array', 'negative', 'squeeze', 'expand_dims', 'transpose', 'ravel',
+    'broadcast_to', 'roll', 'flip', 'cumsum', 'sum', 'split', 'moveaxis', 'swapaxes', 'real', 'imag', 'diff',
+}
+
+
+def lin_add(a, b):
+  if a == 'Z':
+    return b
+  if b == 'Z':
+    return a
+  if 'N' in (a, b):
+    return 'N'
+  if a == b and a in ('C', 'L'):
+    return a
+  return 'A'
+
+
+def lin_mul(a, b):
+  if 'Z' in (a, b):
+    return 'Z'
+  if a == 'C':
+    return b
+  if b == 'C':
+    return a
+  return 'N'
+
+
+def lin_join(a, b):
+  if a == b:
+    return a
+  if {a, b} <= {'Z', 'L'}:
+    return 'L'
+  if 'N' in (a, b):
+    return 'N'
+  return 'A'
+
+
+class Lin:
+  """Linearity of a value in a set of variable atoms.
+
+  'Z' zero, 'C' independent of the variables, 'L' linear-homogeneous,
+  'A' affine, 'N' not shown linear."""
+
+  def __init__(self, is_var, linear_slots=None):
+    self.is_var = is_var
+    self.linear_slots = linear_slots or (lambda t: None)
+    self.memo = {}
+
+  def of(self, t):
+    key = id(t)
+    if key in self.memo and self.memo[key][0] is t:
+      return self.memo[key][1]
+    r = self._of(t)
+    self.memo[key] = (t, r)
+    return r
+
+  def _of(self, t):
+    if self.is_var(t):
+      return 'L'
+    k, a = t.k, t.a
+    if k == 'const':
+      return 'Z' if (a[0] == 0 and not isinstance(a[0], bool) and isinstance(a[0], (int, float))) else 'C'
+    if not sym.contains(t, self.is_var):
+      if k == 'call' and alg.ext_short(a[0]) in ('zeros', 'zeros_like'):
+        return 'Z'
+      return 'C'
+    if k in ('bcast', 'leaf'):
+      return self.of(a[0])
+    if k == 'sub':
+      return self.of(a[0]) if not sym.contains(a[1], self.is_var) else 'N'
+    if k == 'attr':
+      return self.of(a[0]) if a[1] in ('T', 'real', 'imag') else ('L' if self.is_var(t) else 'N')
+    if k == 'un':
+      return self.of(a[1]) if a[0] in ('-', '+') else 'N'
+    if k == 'bin':
+      op = a[0]
+      l, r = self.of(a[1]), self.of(a[2])
+      if op in ('+', '-'):
+        return lin_add(l, r)
+      if op in ('*', '@'):
+        return lin_mul(l, r)
+      if op == '/':
+        return l if r == 'C' else ('Z' if l == 'Z' else 'N')
+      if op == '**':
+        return 'N' if l != 'C' or r != 'C' else 'C'
+      return 'N'
+    if k in ('tuple', 'list'):
+      out = 'Z'
+      for x in a:
+        out = lin_join(out, self.of(x)) if out != 'Z' else self.of(x)
+      return out
+    if k == 'dict':
+      out = 'Z'
+      for _, x in a:
+        out = lin_join(out, self.of(x)) if out != 'Z' else self.of(x)
+      return out
+    if k == 'obj':
+      out = 'Z'
+      for _, x in a[1]:
+        out = lin_join(out, self.of(x)) if out != 'Z' else self.of(x)
+      return out
+    if k == 'phi':
+      if sym.contains(a[0], self.is_var):
+        return 'N'
+      return lin_join(self.of(a[1]), self.of(a[2]))
+    if k == 'store':
+      if sym.contains(a[1], self.is_var):
+        return 'N'
+      return lin_join(self.of(a[0]), self.of(a[2]))
+    if k == 'mapover':
+      return self.of(a[0])
+    if k == 'call':
+      if alg.ext_short(a[0]) in ('zeros_like', 'zeros'):
+        return 'Z'
+      slots = self.linear_slots(t)
+      args = list(a[1]) + [v for _, v in a[2]]
+      if slots is None:
+        short = alg.ext_short(a[0])
+        if short in LINEAR_EXT:
+          slots = [a[1][0]] if a[1] else []
+        elif short == 'einsum':
+          ops = [x for x in a[1] if not (x.k == 'const' and isinstance(x.a[0], str))]
+          vals = [self.of(x) for x in ops if x.k not in ('list', 'call') or sym.contains(x, self.is_var)]
+          out = 'C'
+          for v in vals:
+            out = lin_mul(out, v)
+          return out
+        elif a[0].k == 'attr' and a[0].a[1] in ('sum', 'reshape', 'astype', 'ravel', 'squeeze', 'transpose') and not any(sym.contains(x, self.is_var) for x in args):
+          return self.of(a[0].a[0])
+        else:
+          return 'N'
+      lin_ids = [id(x) for x in slots]
+      for x in args:
+        if id(x) not in lin_ids and sym.contains(x, self.is_var):
+          return 'N'
+      vals = [self.of(x) for x in slots]
+      if not vals:
+        return 'C'
+      if self.is_multiplicative(t):
+        out = 'C'
+        for v in vals:
+          out = lin_mul(out, v)
+        return out
+      out = vals[0]
+      for v in vals[1:]:
+        out = lin_join(out, v)
+      return out
+    return 'N'
+
+  def is_multiplicative(self, t):
+    """Slots multiply (matvec(a, x)) rather than add (concatenate)."""
+    return util_callee(t) in ('_vertical_matvec', '_vertical_matvec_per_wavenumber', 'einsum', 'dot', 'matmul')
+
+
+def util_callee(t):
+  f = t.a[0]
+  if f.k in ('func', 'ext'):
+    return f.a[0].rsplit('.', 1)[-1]
+  if f.k == 'bound':
+    return f.a[1].rsplit('.', 1)[-1]
+  if f.k == 'attr':
+    return f.a[1]
+  return ''
